@@ -9,7 +9,7 @@ git -C /repo worktree add -q --detach "$WT" HEAD || exit 9
 if ! git -C "$WT" apply "$DIR/patch.diff" 2>/dev/null; then
   echo "PATCH-DOES-NOT-APPLY $DIR"; git -C /repo worktree remove --force "$WT"; exit 8
 fi
-cd /verif
+cd "$(dirname "$0")/.." || exit 9
 LOG="/tmp/mutant_${NAME}_$PROP.log"
 VERIF_REPO="$WT" ./check "$PROP" --tier quick > "$LOG" 2>&1
 RC=$?
